@@ -162,7 +162,8 @@ def rule_prefix_pairing(ctx, rid):
         via_est = has_field(a0, "SizeEstimate", "prefix_size") and not src_w
         src_p = any(a[0] == "call" and a[1] and a[1].endswith("::" + meth) for a in pa)
         other_p = [a[1] for a in pa if a[0] == "call" and a[1] and stop_prefix(a[1]) and not a[1].endswith("::" + meth)]
-        okc = src_p and not other_p and ((src_w and via_width) or via_est)
+        arith = sorted({a[1] for a in a0 if a[0] == "bin"})
+        okc = src_p and not other_p and ((src_w and via_width) or via_est) and not arith
         ctx.check(okc, rid, "%s:subtracted-prefix=attached-prefix(%s)" % (vn, meth), wt["span"], drn.id,
                   "width_minus(%s): from %s%s; attached prefix from %s" % (
                       norm(wb.expr(wt["args"][1])), meth if src_w else ("estimate.prefix_size" if via_est else "?"),
